@@ -1745,6 +1745,21 @@ class Engine:
 
     def binop(self, op, a, b, inplace=False):
         import operator as O
+        from .models import ObjArr
+        if isinstance(a, ObjArr) or isinstance(b, ObjArr):
+            # elementwise over an object array: each element pair goes through Python's operator protocol
+            n = len(a.items) if isinstance(a, ObjArr) else len(b.items)
+            def at(v, i):
+                if isinstance(v, ObjArr):
+                    if len(v.items) != n:
+                        raise Unsupported("object arrays of different length")
+                    return v.items[i]
+                if isinstance(v, Arr):
+                    if v.ndim != 1 or not isinstance(v.shape[0], int) or v.shape[0] != n:
+                        raise Unsupported("broadcast of an array against an object array")
+                    return v.get(i)
+                return v
+            return ObjArr([self.binop(op, at(a, i), at(b, i)) for i in range(n)])
         if isinstance(a, Obj) or isinstance(b, Obj):
             return self.obj_binop(op, a, b)
         if isinstance(a, list) and isinstance(b, SymSeq):
@@ -1778,19 +1793,33 @@ class Engine:
         return (f[1] if inplace and isinstance(a, Arr) else f[0])(a, b)
 
     def e_BoolOp(self, e, env):
+        # `a and b` / `a or b` return one of the operands, not a bool: a symbolic number stays that number
+        # (its truth value is decided on this path); a symbolic bool becomes the constant decided on this path
         if isinstance(e.op, ast.And):
             v = True
-            for x in e.values:
+            for i, x in enumerate(e.values):
                 v = self.eval(x, env)
-                if not self.truth(v):
-                    return v if not isinstance(v, (BoolV, Num)) else False
-            return v if not isinstance(v, (BoolV, Num)) else True
+                last = i == len(e.values) - 1
+                if isinstance(v, BoolV):
+                    t = self.truth(v)
+                    if not t:
+                        return False
+                    v = True
+                elif not last and not self.truth(v):
+                    return v
+            return v
         v = False
-        for x in e.values:
+        for i, x in enumerate(e.values):
             v = self.eval(x, env)
-            if self.truth(v):
-                return v if not isinstance(v, (BoolV, Num)) else True
-        return v if not isinstance(v, (BoolV, Num)) else False
+            last = i == len(e.values) - 1
+            if isinstance(v, BoolV):
+                t = self.truth(v)
+                if t:
+                    return True
+                v = False
+            elif not last and self.truth(v):
+                return v
+        return v
 
     def e_Compare(self, e, env):
         left = self.eval(e.left, env)
@@ -1980,11 +2009,18 @@ class Engine:
         if isinstance(v, models.GenList):
             return v.items
         if isinstance(v, Obj):
+            # legacy iteration protocol: an object without __iter__ is iterated by calling __getitem__(0), (1), ... until IndexError.
+            # For the grid landscapes __getitem__(k) indexes self.values, and NumPy raises IndexError exactly at k == len(values)
+            # (assumption D25); the elements are produced by the real __getitem__.
             gi = v.cls.lookup("__getitem__") if v.cls else None
-            if gi is not None:
+            it = v.cls.lookup("__iter__") if v.cls else None
+            if gi is not None and it is None:
                 vals = v.fields.get("values")
                 if isinstance(vals, Arr):
-                    return self.as_iterable(vals)
+                    n = vals.shape[0]
+                    if isinstance(n, int):
+                        return [self.call(gi, [v, i], {}) for i in range(n)]
+                    return SymSeq(n, lambda k: self.call(gi, [v, k], {}))
         if hasattr(v, "__iter__"):
             return list(v)
         raise Unsupported("iteration over %s" % type(v).__name__)
